@@ -64,7 +64,47 @@ fn set_at(v: &mut Value, p: &[Tok], new: Value) {
     }
 }
 
+/// A disclosable claim X with disclosable claims inside it, next to disclosable siblings whose names continue X's name
+/// with one more character - characters that sort below '/', '/' itself (escaped in the path) and characters above it.
+/// Whatever the holder redacts, in whatever order, exactly the claims at or below a redacted path are withheld.
+pub fn generate_sibling_names(seed: u64, em: &mut Emitter) {
+    let mut r = Rng::new(seed ^ 0xC06_51B);
+    for (i, ch) in [" ", "!", "#", "$", "%", "&", "'", "(", ")", "*", "+", ",", "-", ".", "/", "0", ":", "~", "_", "a"].iter().enumerate() {
+        let sib = format!("name{}ja", ch);
+        let sib2 = format!("name{}", ch);
+        let claims = json!({"name": {"given": "Taro", "family": "Yamada", "given2": ["a", "b"]}, sib.clone(): "sibling value", sib2.clone(): {"inner": 1}, "z": 1});
+        let k = |s: &str| Tok::Key(s.to_string());
+        let marks: Vec<TPath> = vec![
+            vec![k("name"), k("given")], vec![k("name"), k("given2"), Tok::Idx(1)], vec![k("name")],
+            vec![k(&sib)], vec![k(&sib2), k("inner")], vec![k(&sib2)],
+        ];
+        for variant in 0..4 {
+            let mut rc = r.fork();
+            let r = &mut rc;
+            let (token, tok, clear) = match make_token(r, &claims, &marks, false, (i + variant) % 2 == 0) {
+                Some(x) => x,
+                None => continue,
+            };
+            let mut redact: Vec<String> = match variant {
+                0 => vec![gen::render(&marks[2]), gen::render(&marks[3])],
+                1 => vec![gen::render(&marks[3]), gen::render(&marks[2])],
+                2 => vec![gen::render(&marks[5]), gen::render(&marks[2]), gen::render(&marks[3])],
+                _ => vec![gen::render(&marks[3]), gen::render(&marks[5])],
+            };
+            if variant == 2 {
+                r.shuffle(&mut redact);
+            }
+            let mut case = present_case(&tok, &token, &clear, &redact, Value::Null, 1, json!({"kbpol": Value::Null}));
+            case["judge_disclosures"] = json!(true);
+            case["nontrivial"] = json!(true);
+            case["tag"] = json!("sibling_name_continues_redacted_name");
+            em.case("present", case);
+        }
+    }
+}
+
 pub fn generate(thorough: bool, seed: u64, em: &mut Emitter) {
+    generate_sibling_names(seed, em);
     let mut r = Rng::new(seed ^ 0xC06);
     let n = if thorough { 30_000 } else { 2_000 };
     for i in 0..n {
